@@ -752,3 +752,73 @@ def derived_crop_params_agreement(chk, prog, rule: str) -> int:
                           "types left out, season k of a multi-season run keeps the value derived from the first season's calendar and differs from a "
                           "single-season run started at its planting date", loc=b.loc())
     return len(keys)
+
+
+def season_table_index(chk, prog, rule):
+    """Per-season tables of the clock (planting_dates, harvest_dates) are read, while stepping, only at the season counter (or at the counter
+    + 1 for the next planting date). An index that reads the number of seasons of the window, a constant, or counts from the end makes a
+    season's calendar depend on another season's dates - and the last season's dates move when the end date is extended. Local names in the
+    index are followed through their reaching definitions (plain assignments); an index that is a formal parameter is not decided."""
+    import ast
+    from ..model import norm, walk_no_nested
+    from ..rdef import flow_of, ENTRY
+    TABLES = ("planting_dates", "harvest_dates")
+    n = 0
+    for key in sorted(prog.funcs):
+        fi = prog.funcs[key]
+        if not fi.module.startswith(("aquacrop.timestep", "aquacrop.solution")):
+            continue
+        sites = [s for s in walk_no_nested(fi.node) if isinstance(s, ast.Subscript) and isinstance(s.ctx, ast.Load)
+                 and isinstance(s.value, ast.Attribute) and s.value.attr in TABLES]
+        if not sites:
+            continue
+        chk.fn(key)
+        flow = flow_of(fi)
+        where = f"{fi.module}:{fi.qualname}"
+
+        def expand(e, at, seen):
+            """-> (attribute names read, bad constructs, opaque names) of the index expression with locals replaced by their definitions"""
+            attrs, bad, opaque = set(), [], set()
+            for x in ast.walk(e):
+                if isinstance(x, ast.Attribute):
+                    attrs.add(x.attr)
+                elif isinstance(x, ast.UnaryOp) and isinstance(x.op, ast.USub):
+                    bad.append(norm(x))
+                elif isinstance(x, ast.BinOp) and not isinstance(x.op, ast.Add):
+                    bad.append(norm(x))
+                elif isinstance(x, ast.Constant) and x.value not in (1,):
+                    bad.append(norm(x))
+                elif isinstance(x, (ast.Call, ast.Subscript, ast.IfExp)):
+                    bad.append(norm(x))
+                elif isinstance(x, ast.Name):
+                    defs = flow.defs_reaching(x.id, at) if at is not None else {ENTRY}
+                    for d in defs:
+                        if d == ENTRY:
+                            opaque.add(x.id)
+                            continue
+                        if (x.id, d) in seen:
+                            continue
+                        seen.add((x.id, d))
+                        a = flow.cfg.nodes[d].ast
+                        if isinstance(a, ast.Assign) and len(a.targets) == 1 and isinstance(a.targets[0], ast.Name):
+                            a2, b2, o2 = expand(a.value, d, seen)
+                            attrs |= a2; bad += b2; opaque |= o2
+                        else:
+                            bad.append(f"{x.id} defined by `{norm(a)[:40]}`")
+            return attrs, bad, opaque
+
+        for s in sites:
+            n += 1
+            construct = norm(s)[:100]
+            at = flow.node_of(s)
+            attrs, bad, opaque = expand(s.slice, at, set())
+            if "n_seasons" in attrs or bad or (not opaque and "season_counter" not in attrs) or (attrs - {"season_counter", "n_seasons"} and not opaque and "season_counter" not in attrs):
+                why = ("the index reads the number of seasons of the window" if "n_seasons" in attrs else
+                       f"the index is not the season counter ({', '.join(bad) or 'no read of season_counter'})")
+                chk.violation(rule, where, construct, why + ": a season's calendar is taken from another season's dates - from the last one's, "
+                              "which move when the end date is extended", loc=fi.loc(s))
+            elif opaque and "season_counter" not in attrs:
+                chk.ok(rule, where, construct, f"index is the formal {sorted(opaque)} - not decided", nontrivial=False)
+            else:
+                chk.ok(rule, where, construct, "indexed by the season counter (or counter + 1)")
+    chk.floor(rule, n, 6, "reads of the per-season date tables while stepping")
